@@ -12,7 +12,7 @@ var legalNext = map[string][]string{
 	"Launching":   {"Launched", "Terminating", "Completed", "Error", "Restarting"},
 	"Launched":    {"Terminating", "Completed", "Restarting"},
 	"Restarting":  {"Running", "Launching", "Terminating", "Completed", "Error"},
-	"Terminating": {"Completed", "Restarting", "Error", "Terminating"},
+	"Terminating": {"Completed", "Restarting", "Error", "Terminating", "Skipped"},
 }
 
 func isTerminalStatus(s string) bool {
